@@ -554,15 +554,42 @@ func checkBrackets(c *core.Ctx) {
 			if a.body {
 				body = isHostCall(info)
 			}
-			bracket(wzv, info, "compiler arm "+a.k, cl.Clause.Pos(), cl.Clause.Body, body, a.before, a.after, false)
+			// the arm's statements, with a method of the package that makes the listener call spliced in (one level)
+			var armBody []ast.Stmt
+			for _, st := range cl.Clause.Body {
+				spliced := false
+				if es, ok := st.(*ast.ExprStmt); ok {
+					if call, ok := es.X.(*ast.CallExpr); ok {
+						if f := core.Callee(info, call); f != nil && f.Pkg() == p.Types {
+							if hd := declOf(p, f); hd != nil {
+								lsn := false
+								ast.Inspect(hd.Body, func(n ast.Node) bool {
+									if n != nil && (isLsnCall(info, n, "Before") || isLsnCall(info, n, "After")) {
+										lsn = true
+									}
+									return true
+								})
+								if lsn {
+									armBody = append(armBody, hd.Body.List...)
+									spliced = true
+								}
+							}
+						}
+					}
+				}
+				if !spliced {
+					armBody = append(armBody, st)
+				}
+			}
+			bracket(wzv, info, "compiler arm "+a.k, cl.Clause.Pos(), armBody, body, a.before, a.after, false)
 			// a Before in the Before-arm must not also call After and vice versa
 			if !a.after {
-				if i, _ := find(info, cl.Clause.Body, func(n ast.Node) bool { return isLsnCall(info, n, "After") }); i >= 0 {
+				if i, _ := find(info, armBody, func(n ast.Node) bool { return isLsnCall(info, n, "After") }); i >= 0 {
 					c.Violate("R20.2", "compiler arm "+a.k+" calls only Before", cl.Clause.Pos(), "the before-trampoline arm also calls After")
 				}
 			}
 			if !a.before {
-				if i, _ := find(info, cl.Clause.Body, func(n ast.Node) bool { return isLsnCall(info, n, "Before") }); i >= 0 {
+				if i, _ := find(info, armBody, func(n ast.Node) bool { return isLsnCall(info, n, "Before") }); i >= 0 {
 					c.Violate("R20.2", "compiler arm "+a.k+" calls only After", cl.Clause.Pos(), "the after-trampoline arm also calls Before")
 				}
 			}
